@@ -1,12 +1,16 @@
 (* C09 — encoder is total.
-   STATUS (partial): the two documented failure routes end in EncoderError; the inputs the
-   property names are rejected with EncoderError (they crashed before the repairs).  Crash
-   freedom of the whole encoder model (parser / kekulisation / matching / emission invariants)
-   is not proved; outcome classes of implementation and model are compared on malformed input. *)
+   Proved for ALL strings (proofs/ParserTotal.v): the first stage - SMILES tokenizer and graph
+   construction - never crashes: it returns a graph whose arrays agree in length, or the encoder
+   raises EncoderError, or ValueError escapes from int() on an over-long digit field (the
+   interpreter limit: known finding).  No IndexError / KeyError / AttributeError / AssertionError
+   and no fuel exhaustion (the loops terminate).  Also proved: the two documented failure routes
+   end in EncoderError; the inputs the property names are rejected with EncoderError.
+   Not proved: crash freedom of the later stages (kekulisation / matching / emission); outcome
+   classes of implementation and model are compared on malformed input on every run. *)
 From Coq Require Import String List ZArith NArith Bool.
 Import ListNotations.
 From Selfies Require Import Base Generated Atoms Grammar Decoder PySet Matching Smiles Kekulize Encoder
-  IndexSpec IndexCode Reader RoundTrip EncoderFacts PureFacts.
+  IndexSpec IndexCode Reader RoundTrip EncoderFacts PureFacts ParserTotal.
 Local Open Scope string_scope.
 
 Theorem C09_parse_error_is_encoder_error_partial : forall capf s strict attribute,
@@ -24,6 +28,26 @@ Theorem C09_named_inputs_partial :
    | Ok (x, _) => str_eqb x (lit "[C][C][C][Ring1][Ring1]") | Err _ => false end) = true.
 Proof. exact named_inputs_rejected. Qed.
 
+
+(* stage 1, all strings: the reader of the encoder returns a well-formed graph or fails cleanly *)
+Theorem C09_parser_total_partial : forall s attributable,
+  match smiles_to_mol s attributable with
+  | Ok m => GWF m
+  | Err e => e = SMILESParserError \/ e = ValueError
+  end.
+Proof. exact smiles_to_mol_total. Qed.
+
+(* hence: whenever the encoder fails in its first stage, it raises EncoderError (or the int() ValueError) *)
+Corollary C09_first_stage_outcomes_partial : forall capf s strict attribute,
+  (exists m0, smiles_to_mol s attribute = Ok m0 /\ GWF m0 /\ encoder_c capf s strict attribute = encode_mol capf m0 strict) \/
+  encoder_c capf s strict attribute = Err EncoderError \/ encoder_c capf s strict attribute = Err ValueError.
+Proof.
+  intros capf s strict attribute. pose proof (smiles_to_mol_total s attribute) as H. unfold encoder_c.
+  destruct (smiles_to_mol s attribute) as [m0|e]; [left; eauto|]. destruct H as [-> | ->]; auto.
+Qed.
+
 Print Assumptions C09_parse_error_is_encoder_error_partial.
+Print Assumptions C09_parser_total_partial.
+Print Assumptions C09_first_stage_outcomes_partial.
 Print Assumptions C09_kekulize_failure_is_encoder_error_partial.
 Print Assumptions C09_named_inputs_partial.
